@@ -10,9 +10,18 @@ import (
 	"fmt"
 )
 
-var c03StackKinds = []string{}
+var c03StackKinds = []string{"reframe"}
 
-func c03StackEdits(base *vfPair, dir, ri int) []c03Edit { return nil }
+// c03StackEdits: re-framing of a cleartext handshake record into two records, the first carrying
+// 1, 2, 3 bytes or half of it: the handshake byte stream is unchanged, so both endpoints must
+// complete exactly as without it (and nobody may panic).
+func c03StackEdits(base *vfPair, dir, ri int) []c03Edit {
+	var out []c03Edit
+	for _, k := range []int{1, 2, 3, 4, 5} {
+		out = append(out, c03Edit{Kind: "reframe", Dir: dir, Rec: ri, Off: k})
+	}
+	return out
+}
 
 func c03RecordLens(base *vfPair, dir int) []int {
 	var out []int
@@ -56,6 +65,20 @@ func c03Apply(opt *vfPairOpt, e c03Edit, applied *bool) {
 				end := sim.ends[e.Dir]
 				end.cutAfter = len(end.sentOut) + e.Off
 				*applied = true
+			}
+		case "reframe":
+			if rec[0] == 22 && len(rec) > 5+e.Off && e.Off > 0 {
+				k := e.Off
+				if k == 5 {
+					k = (len(rec) - 5) / 2
+				}
+				if k > 0 && k < len(rec)-5 {
+					a := append([]byte{22, rec[1], rec[2], byte(k >> 8), byte(k)}, rec[5:5+k]...)
+					n2 := len(rec) - 5 - k
+					b := append([]byte{22, rec[1], rec[2], byte(n2 >> 8), byte(n2)}, rec[5+k:]...)
+					*applied = true
+					return [][]byte{a, b}
+				}
 			}
 		case "addext":
 			if nr, ok := c03AddExt(rec, e.Off == 1); ok {
